@@ -732,6 +732,30 @@ fn sweep<'a, B: SddBuilder<'a>>(b: &'a B, cfg: &SCfg, ctx: &Ctx) -> Report {
         }
         s.recheck_pool();
     }
+    // every ordered pair of conditioning / quantification operations on the same function, back to
+    // back (operand sets of at most 1024 functions; every 8th function of the 5-variable pools)
+    if !s.stop && total <= 1024 {
+        let fstep = if n >= 5 { 8 } else { 1 };
+        'p: for &i in perm.iter().step_by(fstep) {
+            let x = i as TT;
+            let mut ops: Vec<SOp> = Vec::new();
+            for v in 0..n {
+                ops.push(SOp::Cond(x, v, true));
+                ops.push(SOp::Cond(x, v, false));
+                ops.push(SOp::Exists(x, v));
+            }
+            for o1 in ops.iter() {
+                for o2 in ops.iter() {
+                    s.issue(o1.clone());
+                    s.issue(o2.clone());
+                }
+                if s.stop {
+                    break 'p;
+                }
+            }
+        }
+        s.recheck_pool();
+    }
     // compose and ite (not implemented by the semantic builder)
     if !s.stop && !cfg.semantic {
         // (strided operand-pool configurations, i.e. the quick n = 5 ones, compose a thinner slice)
